@@ -1,11 +1,20 @@
 package sim
 
 import (
+	"bytes"
+	"context"
+	"encoding/json"
 	"fmt"
-	"github.com/ory/keto/ketoapi"
 	"math"
+	"net/http"
+	"net/http/httptest"
 	"sort"
 	"strings"
+
+	"github.com/julienschmidt/httprouter"
+	"github.com/ory/keto/internal/check"
+	"github.com/ory/keto/internal/x"
+	"github.com/ory/keto/ketoapi"
 )
 
 // C15 – every check terminates, honours cancellation and releases its
@@ -96,6 +105,13 @@ func runC15(env *Env, rc *RunCtx) {
 		bound *= batchN
 		rc.Count("probe_batch_entry_point", 1)
 	}
+	// one case in four of the others enters through the REST check handlers (the
+	// request context is what net/http cancels when the client goes away)
+	restVariant := -1
+	if batchN == 0 && t.Bool(1, 4) {
+		restVariant = t.Choose(4)
+		rc.Count("probe_rest_entry_point", 1)
+	}
 	q, class, _, err := env.PrepCase(c, Limits{Depth: depth, Width: width, BatchMax: 10, BatchPar: batchPar})
 	if err != nil {
 		env.T.Fatalf("harness: %v", err)
@@ -113,7 +129,42 @@ func runC15(env *Env, rc *RunCtx) {
 	}
 	reqDepth := 0
 	apiQ := c.Query.API()
+	var restH http.Handler
+	if restVariant >= 0 {
+		rr := &x.ReadRouter{Router: httprouter.New()}
+		check.NewHandler(env.Deps).RegisterReadRoutes(rr)
+		restH = rr
+	}
 	mk := func() []*Request {
+		if restVariant >= 0 {
+			return []*Request{{Kind: "fn", Fn: func(ctx context.Context) any {
+				target := "/relation-tuples/check"
+				if restVariant >= 2 {
+					target += "/openapi"
+				}
+				var req *http.Request
+				if restVariant%2 == 0 {
+					req = httptest.NewRequest("GET", "http://keto.sim"+target+"?"+tupleURL(c.Query).Encode(), http.NoBody)
+				} else {
+					b, _ := json.Marshal(apiQ)
+					req = httptest.NewRequest("POST", "http://keto.sim"+target, bytes.NewReader(b))
+				}
+				rec := httptest.NewRecorder()
+				restH.ServeHTTP(rec, req.WithContext(ctx))
+				var cb checkBody
+				if (rec.Code == 200 || rec.Code == 403) && json.Unmarshal(rec.Body.Bytes(), &cb) == nil {
+					if cb.Allowed {
+						return CheckOut{Membership: "IsMember"}
+					}
+					return CheckOut{Membership: "NotMember"}
+				}
+				body := rec.Body.String()
+				if len(body) > 160 {
+					body = body[:160]
+				}
+				return CheckOut{Membership: "MembershipUnknown", Err: fmt.Sprintf("HTTP %d %s", rec.Code, body)}
+			}}}
+		}
 		if batchN > 0 {
 			var b []*ketoapi.RelationTuple
 			for i := 0; i < batchN; i++ {
